@@ -137,10 +137,16 @@ func (m *Model) PullPositions(ctx context.Context, ops ...resource.ReadOption) <
 			}
 
 			// transform into the correct output format
+			// same order as GetPositions: by collection key. Sorting by the positions' own direction field would not
+			// be stable when a partial update has stored positions whose direction differs from their key.
+			ids := maps.Keys(all)
+			slices.Sort(ids)
 			positions := &traits.OpenClosePositions{
-				States: maps.Values(all),
+				States: make([]*traits.OpenClosePosition, 0, len(ids)),
 			}
-			sortPositions(positions.States)
+			for _, id := range ids {
+				positions.States = append(positions.States, all[id])
+			}
 
 			positions.Preset, _ = m.presetForValue(positions.States)
 
